@@ -152,15 +152,30 @@ thread_local! {
     /// when set, the connection first *writes* the packet this frame decodes to (any kind); its bytes are not part of the read trace
     pub static PREWRITE: std::cell::RefCell<Option<Vec<u8>>> = const { std::cell::RefCell::new(None) };
 }
-fn hs_isi(reqi: u8) -> insim::insim::Isi { insim::insim::Isi { reqi: insim::identifiers::RequestId(reqi), ..Default::default() } }
+thread_local! {
+    /// when set to (n, reqi): after the n-th read result the connection performs a handshake again (re-sending the IS_ISI in the
+    /// middle of a session is legal); what it writes for that is kept out of the trace
+    pub static MID_HANDSHAKE: std::cell::Cell<Option<(usize, u8)>> = const { std::cell::Cell::new(None) };
+}
+thread_local! {
+    /// the InSim version the handshake's IS_ISI asks for (default: the crate's own)
+    pub static HS_VERSION: std::cell::Cell<Option<u8>> = const { std::cell::Cell::new(None) };
+}
+fn hs_isi(reqi: u8) -> insim::insim::Isi {
+    let mut i = insim::insim::Isi { reqi: insim::identifiers::RequestId(reqi), ..Default::default() };
+    if let Some(v) = HS_VERSION.with(|h| h.get()) { i.version = v; }
+    i
+}
 fn hs_suffix() -> String {
     if let Some(f) = PREWRITE.with(|p| p.borrow().clone()) { return format!(" pw={}", hex(&f)); }
-    HANDSHAKE.with(|h| h.get()).map(|r| format!(" hs={}", r)).unwrap_or_default()
+    if let Some((n, r)) = MID_HANDSHAKE.with(|m| m.get()) { return format!(" mh={}:{}", n, r); }
+    HANDSHAKE.with(|h| h.get()).map(|r| match HS_VERSION.with(|v| v.get()) { Some(v) => format!(" hs={}:{}", r, v), None => format!(" hs={}", r) }).unwrap_or_default()
 }
 /// the optional seventh token of a read line: `ws=<write script>` or `hs=<request id>`
 fn parse_seventh(t: Option<&&str>) -> (Vec<WEv>, Option<u8>) {
     match t {
-        Some(x) if x.starts_with("hs=") => (vec![], x[3..].parse().ok()),
+        Some(x) if x.starts_with("hs=") => { let mut it = x[3..].split(':'); let r = it.next().and_then(|v| v.parse().ok()); HS_VERSION.with(|h| h.set(it.next().and_then(|v| v.parse().ok()))); (vec![], r) },
+        Some(x) if x.starts_with("mh=") => { let mut it = x[3..].split(':'); let n = it.next().and_then(|v| v.parse().ok()).unwrap_or(1); let r = it.next().and_then(|v| v.parse().ok()).unwrap_or(0); MID_HANDSHAKE.with(|m| m.set(Some((n, r)))); (vec![], None) },
         Some(x) if x.starts_with("pw=") => { PREWRITE.with(|p| *p.borrow_mut() = Some(unhex(&x[3..]))); (vec![], None) },
         Some(x) => (parse_wevents(x.trim_start_matches("ws=")), None),
         None => (vec![], None),
@@ -187,6 +202,7 @@ pub fn run_reads(fl: Flavour, compressed: bool, verify: bool, events: Vec<Ev>, w
                     let _ = f.write(p);
                     let mut s = sc.lock().unwrap(); s.trace.clear(); s.out.clear(); s.wlog.clear(); s.write_calls.clear();
                 }
+                let mut nres = 0usize;
                 for _ in 0..max_reads {
                     let before = sc.lock().unwrap().injected;
                     let r = f.read();
@@ -198,6 +214,14 @@ pub fn run_reads(fl: Flavour, compressed: bool, verify: bool, events: Vec<Ev>, w
                     sc.lock().unwrap().trace.push(tok.clone());
                     if tok == "err disconnected" || tok == "err framing" {
                         break;
+                    }
+                    nres += 1;
+                    if let Some((n, r)) = MID_HANDSHAKE.with(|m| m.get()) {
+                        if nres == n {
+                            let (tl, ol) = { let s = sc.lock().unwrap(); (s.trace.len(), s.out.len()) };
+                            let _ = f.handshake(hs_isi(r));
+                            let mut s = sc.lock().unwrap(); s.trace.truncate(tl); s.out.truncate(ol);
+                        }
                     }
                 }
             }));
@@ -221,6 +245,7 @@ pub fn run_reads(fl: Flavour, compressed: bool, verify: bool, events: Vec<Ev>, w
                             let _ = f.write(p).await;
                             let mut s = sc.lock().unwrap(); s.trace.clear(); s.out.clear(); s.wlog.clear(); s.write_calls.clear(); s.flushed_len = 0;
                         }
+                        let mut nres = 0usize;
                         for _ in 0..max_reads {
                             let before = sc.lock().unwrap().injected;
                             let r = f.read().await;
@@ -237,6 +262,14 @@ pub fn run_reads(fl: Flavour, compressed: bool, verify: bool, events: Vec<Ev>, w
                             sc.lock().unwrap().trace.push(tok.clone());
                             if tok == "err disconnected" || tok == "err framing" {
                                 break;
+                            }
+                            nres += 1;
+                            if let Some((n, r)) = MID_HANDSHAKE.with(|m| m.get()) {
+                                if nres == n {
+                                    let (tl, ol) = { let s = sc.lock().unwrap(); (s.trace.len(), s.out.len()) };
+                                    let _ = f.handshake(hs_isi(r), std::time::Duration::from_secs(5)).await;
+                                    let mut s = sc.lock().unwrap(); s.trace.truncate(tl); s.out.truncate(ol); s.flushed_len = s.out.len();
+                                }
                             }
                         }
                     })
@@ -584,6 +617,8 @@ pub fn replay_line(ctx: &mut Ctx, prop: &str, l: &str) -> bool {
             let _ = read_case(ctx, prop, &case);
             HANDSHAKE.with(|h| h.set(None));
             PREWRITE.with(|p| *p.borrow_mut() = None);
+            MID_HANDSHAKE.with(|m| m.set(None));
+            HS_VERSION.with(|h| h.set(None));
             true
         },
         ["framed.read", fl, m, v, tbl, evs] | ["framed.read", fl, m, v, tbl, evs, _] => {
@@ -597,6 +632,8 @@ pub fn replay_line(ctx: &mut Ctx, prop: &str, l: &str) -> bool {
             if !ws.is_empty() { op.push_str(&format!(" ws={}", wscript_text(&ws))); } else { op.push_str(&hs_suffix()); }
             HANDSHAKE.with(|h| h.set(None));
             PREWRITE.with(|p| *p.borrow_mut() = None);
+            MID_HANDSHAKE.with(|m| m.set(None));
+            HS_VERSION.with(|h| h.set(None));
             ctx.case(&op, &if r.trace.is_empty() { "-".to_string() } else { r.trace.join(";") });
             true
         },
@@ -726,6 +763,19 @@ pub fn generate_reads(ctx: &mut Ctx, prop: &str) {
                 }
             }
         }
+        // 1f. a handshake in the middle of a session (after the 1st / 2nd / 3rd result), with complete frames and with part of a
+        // frame already buffered behind the packet just returned
+        for fl in [Flavour::Blocking, Flavour::Tokio] {
+            let frames = vec![ping.clone(), vec![size_byte(compressed, 4), 3, 2, 3], ka.clone(), vec![size_byte(compressed, 8), 4, 1, 6, 0xfd, 2, 0, 0], ping.clone()];
+            let stream = frames.concat();
+            for after in [1usize, 2, 3] {
+                for evs in [vec![Ev::Data(stream.clone()), Ev::Eof], vec![Ev::Data(stream[..14].to_vec()), Ev::Data(stream[14..].to_vec()), Ev::Eof], vec![Ev::Data(stream[..6].to_vec()), Ev::Data(stream[6..].to_vec()), Ev::Eof]] {
+                    MID_HANDSHAKE.with(|m| m.set(Some((after, 0))));
+                    let _ = read_case(ctx, prop, &Case { fl, compressed, verify: false, frames: frames.clone(), events: evs, wscript: vec![] });
+                    MID_HANDSHAKE.with(|m| m.set(None));
+                }
+            }
+        }
         // 1e. a backlog larger than the connection's 6120-byte receive buffer, offered in one piece and in pieces that never let
         // the buffer run empty, with a frame straddling the 6120th byte — keep-alives before, across and after that point
         {
@@ -841,6 +891,20 @@ pub fn generate_reads(ctx: &mut Ctx, prop: &str) {
                                 let _ = read_case(ctx, prop, &Case { fl, compressed, verify, frames, events: evs, wscript: vec![] });
                                 HANDSHAKE.with(|h| h.set(None));
                             }
+                        }
+                    }
+                    // … a handshake that asked for another InSim version: what counts is still 9, not what was asked for
+                    for hv in [8u8, 10, 0, 255, 9] {
+                        for rv in [hv as usize, 9, 8] {
+                            let mut b = pool.ver[rv].clone(); b[2] = 1;
+                            let frames = vec![ping.clone(), b.clone(), pool.ver[9].clone(), ping.clone()];
+                            let mut evs = random_partition(&mut ctx.rng, &frames.concat(), 1);
+                            evs.push(Ev::Eof);
+                            HANDSHAKE.with(|h| h.set(Some(1)));
+                            HS_VERSION.with(|h| h.set(Some(hv)));
+                            let _ = read_case(ctx, prop, &Case { fl, compressed, verify, frames, events: evs, wscript: vec![] });
+                            HANDSHAKE.with(|h| h.set(None));
+                            HS_VERSION.with(|h| h.set(None));
                         }
                     }
                     // … or wrote before: one packet of every kind written first, then a refused and an accepted version
